@@ -1745,6 +1745,10 @@ func aggregateTraversalMatch(readingClause *cypher.ReadingClause, sourceSymbol s
 	if !leftOK || !relationshipOK || !rightOK ||
 		leftNode == nil || relationship == nil || rightNode == nil ||
 		variableSymbol(leftNode.Variable) != sourceSymbol ||
+		// The fast path filters the source by the kinds of the first MATCH only, and counts terminals per source:
+		// kinds restated on the source here, or a terminal that is the source itself, are outside its shape.
+		len(leftNode.Kinds) > 0 ||
+		variableSymbol(rightNode.Variable) == sourceSymbol ||
 		leftNode.Properties != nil ||
 		relationship.Variable != nil ||
 		relationship.Range == nil ||
